@@ -196,7 +196,8 @@ def plain(t):
 
 def rand_content(rng, t):
     if t == ('nat',):
-        return ('nat', rng.choice([0, 1, 2, 7]))
+        # (2^61 - 1 is the modulus of CPython's integer hash: 0 and 2^61 - 1, 1 and 2^61 are distinct contents with equal hashes)
+        return ('nat', rng.choice([0, 1, 2, 7, 0, 1, 2 ** 61 - 1, 2 ** 61]))
     if t == ('string',):
         return ('str', rng.choice(['a', 'b', '', 'ab']))
     if t == ('unit',):
